@@ -127,6 +127,7 @@ impl Shard {
             "classes": self.classes, "violation_count": self.violation_count, "viol_sigs": self.viol_sigs,
             "violations": self.violations, "inconclusive": self.inconclusive, "samples": self.samples,
             "notes": self.notes, "maxima": self.maxima, "complete": true,
+            "probes": geo::verif_probe::snapshot().into_iter().map(|(n, c)| (n.to_string(), json!(c))).collect::<Map<String, Value>>(),
         });
         std::fs::write(&ctx.out, serde_json::to_string(&v).unwrap()).expect("write shard result");
     }
